@@ -23,7 +23,9 @@ RULE = (
     "compute_log_likelihood_hazard); Normal in the models' layouts ((n,1)/(1,), (n,1)/()/(1,), (n,T,F)/(n,T,F)/(F,)|(1,), (n,k)/(k,)/(), "
     "pop (F,), (d,k), scalar) x dtype {f32, f64, value f64 + params f32, value f32 + loc f64}; Bernoulli p in (0,1) incl. 1e-7, 1-1e-7, "
     "eps32, 1-eps32 in f32 and f64; Weibull nu,rho in [0.2,5] (incl. rho=1), xi in [-3,3], tau {far before, just before (1e-9..1e-2), "
-    "equal, after} the event, censoring flags, 1-3 events, with/without survival shifts, float64 events, f32|f64 parameters. "
+    "equal, after, just after} the event, censoring flags, 1-3 events, with/without survival shifts, float64 events, f32|f64 parameters; "
+    "1 case in 20 uses a very peaked law rho in [30,1000] (outside the design domain, kept because leaspy's own data-driven start of the "
+    "joint model produces such values, e.g. rho=2.8e22 on a 5-subject cohort). "
     "state: one case = one real model (joint / logistic gaussian-scalar|diagonal / logistic bernoulli / linear / shared-speed) with a "
     "generated cohort loaded, all latent values, prior parameters and noise level perturbed, every nll node compared. fit: short real "
     "mcmc_saem fits + personalisations with the contracts on. distinct = distinct (family, layout, dtype class, path, which "
@@ -56,6 +58,9 @@ ASSUMPTIONS = [
     "before taking logits, so below/above it the value saturates at -log(eps32)=15.94; such entries are counted "
     "(bernoulli_saturated_not_judged) and only required to be finite, >= 0 and <= the true value; float64 probabilities are judged "
     "on [2.2e-16, 1-2.2e-16], i.e. 1e-7 and 1-1e-7 are judged exactly there",
+    "the design domain of the Weibull shape is rho in [0.2,5]; there the hazard stays inside the float64 range for every float64 age. "
+    "Outside it (rho >~ 30) the genuine defect 'weibull/log-hazard-lost-when-hazard-leaves-float64-range' is reached (finding C08_weibull-"
+    "log-hazard-float-range): it has its own key so that any other mismatch is still reported",
     "at t == tau exactly with rho <= 1 the textbook density is a matter of convention (open support): only finiteness is required",
     "tolerances: any float32 tensor involved -> rtol 2e-4, atol 1e-5; all float64 -> rtol 1e-6, atol 1e-6 (leaspy adds a float32 "
     "constant 1/2 log 2pi, abs error 3e-8); summed nodes: atol + rtol * sum|terms|",
@@ -66,13 +71,14 @@ ASSUMPTIONS = [
 
 def shards(tier, seed):
     q = tier == "quick"
+    b = {"budget_s": 75 if q else 600}
     out = []
-    out += [{"name": f"direct-normal-{k}", "kind": "normal", "k": k, "n": 700 if q else 12000, "budget_s": 60 if q else 700} for k in range(2)]
-    out += [{"name": f"direct-bernoulli-{k}", "kind": "bernoulli", "k": k, "n": 600 if q else 12000, "budget_s": 60 if q else 700} for k in range(1)]
-    out += [{"name": f"direct-weibull-{k}", "kind": "weibull", "k": k, "n": 500 if q else 10000, "budget_s": 60 if q else 700} for k in range(3)]
-    out += [{"name": f"state-contract-{k}", "kind": "state", "contracts": True, "k": k, "n": 14 if q else 300, "budget_s": 55 if q else 700} for k in range(3)]
-    out += [{"name": f"state-plain-{k}", "kind": "state", "contracts": False, "k": k, "n": 14 if q else 300, "budget_s": 55 if q else 700} for k in range(3)]
-    out += [{"name": f"fit-{k}", "kind": "fit", "k": k, "n": 5 if q else 80, "budget_s": 55 if q else 700} for k in range(4)]
+    out += [{"name": f"direct-normal-{k}", "kind": "normal", "k": k, "n": 4000 if q else 150000, **b} for k in range(2)]
+    out += [{"name": f"direct-bernoulli-{k}", "kind": "bernoulli", "k": k, "n": 3000 if q else 150000, **b} for k in range(1)]
+    out += [{"name": f"direct-weibull-{k}", "kind": "weibull", "k": k, "n": 2500 if q else 60000, **b} for k in range(3)]
+    out += [{"name": f"state-contract-{k}", "kind": "state", "contracts": True, "k": k, "n": 50 if q else 1500, **b} for k in range(3)]
+    out += [{"name": f"state-plain-{k}", "kind": "state", "contracts": False, "k": k, "n": 50 if q else 1500, **b} for k in range(3)]
+    out += [{"name": f"fit-{k}", "kind": "fit", "k": k, "n": 10 if q else 300, **b} for k in range(4)]
     return out
 
 
@@ -82,7 +88,8 @@ def run_shard(spec, ctx):
     if kind in ("normal", "bernoulli", "weibull"):
         from vf.probes import c08contracts as cc
 
-        cc.install()
+        # each direct workload builds its symbolic NamedInputFunctions BEFORE installing the contracts: they hold references bound
+        # at that time (as models built before a late install would) and must still reach the patched methods
         {"normal": _direct_normal, "bernoulli": _direct_bernoulli, "weibull": _direct_weibull}[kind](spec, ctx, cc)
         _flush_stats(ctx, cc)
     elif kind == "state":
@@ -142,7 +149,7 @@ def _call(ctx, cc, case, label, fn, fam_counter):
     return res
 
 
-def _outer(ctx, cc, case, label, key, got_t, want, tol, judged=None):
+def _outer(ctx, cc, case, label, key, got_t, want, tol, judged=None, alt=None):
     """Harness-level comparison of what the public entry point returned."""
     import numpy as np
 
@@ -157,9 +164,14 @@ def _outer(ctx, cc, case, label, key, got_t, want, tol, judged=None):
     bad, j = cc.bad_entries(got, want, tol[0], tol[1], judged)
     ctx.count("outer_entries_judged", int(j.sum()))
     if bad.any():
-        idx = tuple(int(k) for k in np.argwhere(bad)[0])
-        ctx.violation(key, f"[{label}] returned entry differs from the textbook negative log-density", case,
-                      index=list(idx), got=float(got[idx]), want=float(want[idx]), n_bad=int(bad.sum()))
+        if alt is not None and (bad & alt[0]).any():  # a separately classified mechanism
+            idx = tuple(int(k) for k in np.argwhere(bad & alt[0])[0])
+            ctx.violation(alt[1], f"[{label}] {alt[2]}", case, index=list(idx), got=float(got[idx]), want=float(want[idx]), n_bad=int((bad & alt[0]).sum()))
+            bad = bad & ~alt[0]
+        if bad.any():
+            idx = tuple(int(k) for k in np.argwhere(bad)[0])
+            ctx.violation(key, f"[{label}] returned entry differs from the textbook negative log-density", case,
+                          index=list(idx), got=float(got[idx]), want=float(want[idx]), n_bad=int(bad.sum()))
         return False
     return bool(j.any())
 
@@ -184,10 +196,15 @@ def _direct_normal(spec, ctx, cc):
 
     sym = Normal("the_loc", "the_scale")
     f_nll, f_reg = sym.get_func_nll("the_value"), sym.get_func_regularization("the_value")
+    cc.install()
     for i in ctx.cases(spec["n"]):
         r = ctx.rng("normal", i)
         layout = NORMAL_LAYOUTS[i % len(NORMAL_LAYOUTS)]
         dmode = NORMAL_DTYPES[(i // len(NORMAL_LAYOUTS)) % len(NORMAL_DTYPES)]
+        if dmode == "value32-loc64" and not layout.startswith("attach"):
+            # float32 value with a float64 location only occurs as (y, model) of the joint model: both full-shaped.  (A 0-dim float64
+            # location next to a float32 value is demoted to float32 by torch's type promotion: not a layout of the models.)
+            dmode = "f32"
         n, T, F, k, d = (int(r.integers(1, 9)), int(r.integers(1, 7)), int(r.integers(1, 5)), int(r.integers(1, 4)), int(r.integers(1, 5)))
         shp = {
             "ind(n,1)/(1,)/(1,)": ((n, 1), (1,), (1,)), "ind(n,1)/()/(1,)": ((n, 1), (), (1,)),
@@ -263,6 +280,7 @@ def _direct_bernoulli(spec, ctx, cc):
     from vf.refmodel import dens08 as ref
 
     f_nll = Bernoulli("the_p").get_func_nll("the_value")
+    cc.install()
     for i in ctx.cases(spec["n"]):
         r = ctx.rng("bernoulli", i)
         layout = BERN_LAYOUTS[i % 3]
@@ -311,7 +329,7 @@ def _direct_bernoulli(spec, ctx, cc):
 TAU_CLASSES = ["far-before", "just-before", "equal", "after", "just-after"]
 
 
-def gen_weibull_inputs(r, n=None, n_events=None, with_shifts=None, param_dtype=None):
+def gen_weibull_inputs(r, n=None, n_events=None, with_shifts=None, peaked=False):
     """(numpy float64 arrays) t (n,E), observed (n,E) bool, nu (E,), rho (E,), xi (n,1), tau (n,1), shifts (n,E)|None, classes."""
     import numpy as np
 
@@ -329,6 +347,8 @@ def gen_weibull_inputs(r, n=None, n_events=None, with_shifts=None, param_dtype=N
             rho[e] = 0.2
         elif c < 0.28:
             rho[e] = 5.0
+    if peaked:  # outside the design domain [0.2, 5]: very peaked laws (leaspy's own data-driven start can produce rho ~ 1e22)
+        rho = np.exp(r.uniform(np.log(30.0), np.log(1000.0), size=E))
     xi = np.clip(r.normal(0, 1.2, size=(n, 1)), -3, 3)
     for j in range(n):
         if r.random() < 0.1:
@@ -362,9 +382,13 @@ def _direct_weibull(spec, ctx, cc):
 
     sym0 = WeibullRightCensored("nu", "rho", "xi", "tau").get_func_nll("event")
     sym1 = WeibullRightCensoredWithSources("nu", "rho", "xi", "tau", "survival_shifts").get_func_nll("event")
+    cc.install()
     for i in ctx.cases(spec["n"]):
         r = ctx.rng("weibull", i)
-        t, obs, nu, rho, xi, tau, shifts, classes = gen_weibull_inputs(r, with_shifts=bool(i % 2))
+        peaked = (i % 20) == 7
+        t, obs, nu, rho, xi, tau, shifts, classes = gen_weibull_inputs(r, with_shifts=bool(i % 2), peaked=peaked)
+        if peaked:
+            ctx.count("weibull_peaked_rho_cases")
         dmode = ["params32", "params64", "latents64-pop32"][(i // 2) % 3]
         dpop = torch.float64 if dmode == "params64" else torch.float32
         dind = torch.float32 if dmode == "params32" else torch.float64
@@ -382,7 +406,7 @@ def _direct_weibull(spec, ctx, cc):
         fam = WeibullRightCensoredFamily if sh_t is None else WeibullRightCensoredWithSourcesFamily
         params = (nu_t, rho_t, xi_t, tau_t) + (() if sh_t is None else (sh_t,))
         named = dict(event=x, nu=nu_t, rho=rho_t, xi=xi_t, tau=tau_t, **({} if sh_t is None else {"survival_shifts": sh_t}))
-        case = {"index": i, "family": "weibull", "with_shifts": sh_t is not None, "dtype": dmode, "tau_classes": classes,
+        case = {"index": i, "family": "weibull", "with_shifts": sh_t is not None, "dtype": dmode, "tau_classes": classes, "peaked_rho": peaked,
                 "t": cc._np(tt), "observed": obs, "nu": cc._np(nu_t), "rho": cc._np(rho_t), "xi": cc._np(xi_t), "tau": cc._np(tau_t),
                 "shifts": None if sh_t is None else cc._np(sh_t)}
         ctx.evaluated()
@@ -392,6 +416,9 @@ def _direct_weibull(spec, ctx, cc):
         ctx.count("weibull_at_tau_entries", int((T["at_tau"]).sum()))
         ctx.count("weibull_censored_before_reference_entries", int((~T["observed"] & ~T["after"]).sum()))
         rho_b = np.broadcast_to(cc._np(rho_t), early.shape)
+        alt = (T["observed"] & T["after"] & (np.abs(T["log_pow"]) > cc.POW_UNDERFLOW), cc.KEY_UNDERFLOW,
+               "the hazard underflows in float64 and the log-hazard of an observed event is lost")
+        ctx.count("weibull_hazard_underflow_entries", int(alt[0].sum()))
         for path in ("nll", "symbolic-nll", "compute_log_survival", "compute_log_likelihood_hazard"):
             fn = {"nll": lambda: fam.nll(x, *params), "symbolic-nll": lambda: (sym0 if sh_t is None else sym1)(**named),
                   "compute_log_survival": lambda: fam.compute_log_survival(x, *params),
@@ -406,11 +433,11 @@ def _direct_weibull(spec, ctx, cc):
                 ok = _outer(ctx, cc, c2, f"weibull/{path}", "weibull/log-survival-mismatch", res, -T["neg_log_S"], tol)
             elif path == "compute_log_likelihood_hazard":
                 want = np.where(T["observed"], np.where(T["after"], T["log_h"], np.nan), 0.0)
-                ok = _outer(ctx, cc, c2, f"weibull/{path}", "weibull/log-hazard-mismatch", res, want, tol)
+                ok = _outer(ctx, cc, c2, f"weibull/{path}", "weibull/log-hazard-mismatch", res, want, tol, alt=alt)
                 _penalty_outer(ctx, cc, c2, -cc._np(res), early, T, rho_b, f"weibull/{path}")
             else:
                 got = cc._np(res.value)
-                ok = _outer(ctx, cc, c2, f"weibull/{path}", "weibull/nll-entry-mismatch", res.value, np.where(early, np.nan, T["nll"]), tol)
+                ok = _outer(ctx, cc, c2, f"weibull/{path}", "weibull/nll-entry-mismatch", res.value, np.where(early, np.nan, T["nll"]), tol, alt=alt)
                 _penalty_outer(ctx, cc, c2, got, early, T, rho_b, f"weibull/{path}")
                 cens = ~T["observed"]
                 if got.shape == cens.shape and cens.any():
@@ -448,7 +475,7 @@ def _penalty_outer(ctx, cc, case, got_pos, early, T, rho_b, label):
 # whole-state
 # ------------------------------------------------------------------------------------------------------
 STATE_GRID = [
-    ("joint", 1, 0, None), ("joint", 2, 0, None), ("joint", 3, 1, None), ("joint", 4, 2, None),
+    ("joint", 1, 0, None), ("joint", 2, 1, None), ("joint", 3, 1, None), ("joint", 4, 2, None),
     ("logistic", 1, 0, "gaussian-scalar"), ("logistic", 3, 1, "gaussian-scalar"), ("logistic", 3, 2, "gaussian-diagonal"),
     ("logistic", 2, 1, "bernoulli"), ("logistic", 3, 0, "bernoulli"), ("linear", 2, 1, "gaussian-diagonal"),
     ("shared_speed_logistic", 3, 1, None), ("joint", 3, 2, None),
@@ -495,7 +522,7 @@ def perturb_state(model, state, r, kind):
             if not isinstance(var, IndividualLatentVariable):
                 continue
             v = state[name]
-            dt = ind_dtype or v.dtype
+            dt = (ind_dtype or v.dtype) if name in ("xi", "tau") else v.dtype  # sources enter a matmul with float32 matrices
             if name == "xi":
                 new = np.clip(r.normal(0, 0.7, size=tuple(v.shape)), -3, 3)
             elif name == "tau":
@@ -569,7 +596,8 @@ def reference_nodes(model, state, cc):
             T = ref.weibull_terms(cc._np(data.value), w, *[cc._np(q) for q in ps[:4]], shifts)
             out[node] = dict(want=_sum_ind(T["nll"]), scale=_sum_ind(np.where(np.isfinite(T["nll"]), np.abs(T["nll"]), 0.0)),
                              f32=is32(data, *ps), fam="weibull", skip=None,
-                             at_tau_only=_sum_ind((T["observed"] & T["at_tau"] & (np.broadcast_to(cc._np(ps[1]), T["nll"].shape) <= 1.0)).astype(float)) > 0)
+                             at_tau_only=_sum_ind((T["observed"] & T["at_tau"] & (np.broadcast_to(cc._np(ps[1]), T["nll"].shape) <= 1.0)).astype(float)) > 0,
+                             underflow=_sum_ind((T["observed"] & T["after"] & (np.abs(T["log_pow"]) > cc.POW_UNDERFLOW)).astype(float)) > 0)
             if "survival_shifts" in pn and "sources" in dag and "zeta" in dag:
                 s, z = val("sources"), val("zeta")
                 u = cc._np(s) @ cc._np(z)
@@ -624,6 +652,7 @@ def _combine(out, parts):
             d["skip"] = out[p]["skip"] if d["skip"] is None else (d["skip"] | out[p]["skip"])
         if out[p].get("at_tau_only") is not None:
             d["at_tau_only"] = out[p]["at_tau_only"]
+            d["underflow"] = out[p]["underflow"]
     return d
 
 
@@ -635,6 +664,7 @@ def _total(d):
         t["skip"] = np.asarray(True)
     if d.get("at_tau_only") is not None:
         t["at_tau_only"] = np.asarray(bool(d["at_tau_only"].any()))
+        t["underflow"] = np.asarray(bool(d["underflow"].any()))
     return t
 
 
@@ -675,6 +705,15 @@ def compare_node(ctx, cc, case, name, got_t, d):
     with np.errstate(all="ignore"):
         bad = j & ((np.abs(got - want) > atol + rtol * np.maximum(scale, np.abs(want))) | ~np.isfinite(got))
     ctx.count("state_entries_judged", int(j.sum()))
+    if bad.any() and d.get("underflow") is not None:
+        under = bad & np.broadcast_to(d["underflow"], want.shape)
+        if under.any():
+            idx = tuple(int(k) for k in np.argwhere(under)[0])
+            ctx.violation(cc.KEY_UNDERFLOW, f"state['{name}']: the hazard of an observed event underflows in float64 and its log-hazard is lost", case,
+                          node=name, index=list(idx), got=float(got[idx]), want=float(want[idx]))
+            bad = bad & ~under
+            if not bad.any():
+                return False
     if bad.any():
         idx = tuple(int(k) for k in np.argwhere(bad)[0])
         ctx.violation(key, f"state['{name}'] differs from the reference computed from the state's own inputs", case,
@@ -759,7 +798,7 @@ def _state_cases(spec, ctx, cc_or_none):
 # contracts during real fits / personalisations
 # ------------------------------------------------------------------------------------------------------
 FIT_GRID = [("joint", 1, 0, None), ("joint", 3, 1, None), ("logistic", 2, 1, "bernoulli"), ("logistic", 3, 2, "gaussian-diagonal"),
-            ("logistic", 1, 0, "gaussian-scalar"), ("joint", 2, 0, None), ("linear", 2, 1, "gaussian-diagonal")]
+            ("logistic", 1, 0, "gaussian-scalar"), ("joint", 2, 1, None), ("linear", 2, 1, "gaussian-diagonal")]
 
 
 def _fit_cases(spec, ctx, cc):
